@@ -22,6 +22,10 @@ class Attribute(_expression.Any):
         self._data_type = data_type
         self._name = str(name)
         self._doc = str(doc)
+        try:
+            _ = data_type.bit_length_set
+        except TypeError:  # E.g., a service type.
+            raise InvalidTypeError("%s is not serializable and cannot be used as an attribute type" % data_type) from None
 
         if isinstance(data_type, VoidType):
             if self._name:
